@@ -178,7 +178,7 @@ theorem cold_logonHyp {s : Sess} {m : InMsg} (hc : Cold s) (hm : Late m) (hk : k
   onLogon := fun _ ht _ => absurd ht (cold_noTimeGate hc hm)
   ro := Or.inl cold_resetOK
 
-theorem shutdownWithReason_latent (s : Sess) (b : Bool) : (shutdownWithReason s b).2 = .latent := rfl
+theorem shutdownWithReason_latent (s : Sess) (m : InMsg) (b : Bool) : (shutdownWithReason s m b).2 = .latent := rfl
 
 theorem cold_logonFixMsgIn {s : Sess} {m : InMsg} (hc : Cold s) (hm : Late m) :
     RelF coldObs (fun _ _ => True) s (logonFixMsgIn s m).1 ∧ (logonFixMsgIn s m).2 = .latent := by
@@ -434,6 +434,8 @@ theorem cold_stepCore (s : Sess) (e : Ev) (h : Cold s) (he : LateEv e) : CGood s
     · exact g1.relF (relF_sendQueued _)
     · exact g1.relF (RelF.of_eq rfl rfl rfl rfl rfl)
   | sessionTime r sm => exact hC s r sm h
+  | resetTime now =>
+    exact (CGood.refl h).relF (relF_checkResetTime (N := coldObs) (S := fun _ _ => True) s now (Or.inl cold_resetOK))
 
 theorem cold_step (s : Sess) (e : Ev) (h : Cold s) (he : LateEv e) : (∀ o ∈ (step s e).2.1, coldObs o) ∧ Cold (step s e).1 := by
   have g := cold_stepCore s.clearLog e ⟨h.lat, h.st, h.inbox⟩ he
